@@ -192,6 +192,8 @@ def c12(tier, seed):
     os.remove(vec)
     for x in summ["order_bad"][:3]:
         rep.violation("client-read-order", "now() did not read CLOCK_REALTIME first and CLOCK_MONOTONIC second", {"kind": "vector", "case": x})
+    import daemonchecks
+    daemonchecks.whole_runs(rep, tier, daemonchecks.WHOLE_PROPS["C12"])
     rc = rep.finish()
     if rc == 0 and drifts:
         raise Drift("; ".join(drifts[:3]))
